@@ -1,8 +1,13 @@
 """C11 Connection layer (p2p.Conn) is a faithful, ordered, typed byte stream."""
 import hashlib
+import os
 import re
+import sys
 
 import vlib
+
+sys.path.insert(0, os.path.dirname(os.path.abspath(__file__)))
+from t1 import run_t1  # noqa: E402  (T1 leaf translator tie, checks/t1.py)
 
 LEVEL = "proof"
 
@@ -49,6 +54,7 @@ def distinct_ops(ctx, ops):
 
 def run(ctx):
     ctx.prove("MpcVerif.Props.C11", THEOREMS)
+    run_t1(ctx, ["C11"])          # p2p.Conn fixed-width encoders/decoders = Conn.beList / decodeList, reserve / ensure
     if ctx.tier == "thorough":
         ctx.leanchecker("MpcVerif.Props.C11")
     ctx.build_drv()
